@@ -2,9 +2,10 @@
 import itertools
 from ..driver import Part
 from . import proc_common as PC
+from . import inbox_common as IC
 from .. import common as C
 
-COQ_FILES = ["Tree.v", "TreeProofs.v", "TreeConc.v", "TreeConcProofs.v", "TreeExec.v", "PropsTree.v", "Proc.v", "ProcExec.v", "ProcProofs.v", "PropsProc.v"]
+COQ_FILES = ["Tree.v", "TreeProofs.v", "TreeConc.v", "TreeConcProofs.v", "TreeExec.v", "PropsTree.v", "Proc.v", "ProcExec.v", "ProcProofs.v", "PropsProc.v", "DeliverExec.v"]
 THEOREMS = ["C08_children_first", "C08_events_once", "C08_own_order", "C08_children_listing", "C08_parent",
             "C08_restart_keeps_children", "C08_adoption_corner", "C08_order_oracle_holds_of_model", "C08_done_oracle_holds_of_model",
             "C08_children_first_conc", "C08_signal_after_subtree_conc", "C08_no_hang", "C08_pinned_refuted",
@@ -518,4 +519,4 @@ class Scripted(PC.ProcPart):
     prop = 7
 
 
-PARTS = [Tree(), Scripted()]
+PARTS = [Tree(), Scripted(), IC.DeliverChildrenRace()]
